@@ -153,11 +153,44 @@ def rule_name_guards(ctx: Ctx):
                    "the name alternatives passed is_valid_name (which requires an upper-case initial); matching them with flags (IGNORECASE) would accept "
                    f"spellings that never passed the rule (`{norm(c)[:60]}`)", node=c, mod=fm, nontrivial=bool(flagged))
     iv = repo.need_func("utils.is_valid_name")
-    body = [s for s in iv.body if isinstance(s, ast.Return)]
     P = iv.args.args[0].arg
     need = [f"isinstance({P}, str)", f"len({P}) > 2", f"{P}[0].isupper()", f"not {P}.endswith('.')", f"not {P}.isdigit()", f"{P}.lower() not in DISALLOWED_NAMES"]
-    got = [norm(v) for v in body[0].value.values] if body and isinstance(body[0].value, ast.BoolOp) and isinstance(body[0].value.op, ast.And) else []
-    ctx.ob("R-C19-4", "utils.is_valid_name/conjunction", bool(got) and all(x in got for x in need),
+    LV = Locals(iv)
+
+    def true_atoms(e: ast.AST, outcome: bool, depth=0) -> List[str]:
+        """atoms (source text) that hold when e evaluates to `outcome`"""
+        if isinstance(e, ast.Name) and depth < 3:
+            x = LV.expand(e, e, depth=1)
+            if not isinstance(x, ast.Name):
+                return true_atoms(x, outcome, depth + 1)
+        if isinstance(e, ast.BoolOp) and isinstance(e.op, ast.And) and outcome:
+            return [a for v in e.values for a in true_atoms(v, True, depth)]
+        if isinstance(e, ast.BoolOp) and isinstance(e.op, ast.Or) and not outcome:
+            return [a for v in e.values for a in true_atoms(v, False, depth)]
+        if isinstance(e, ast.UnaryOp) and isinstance(e.op, ast.Not):
+            return true_atoms(e.operand, not outcome, depth)
+        if isinstance(e, ast.Compare) and len(e.ops) == 1 and not outcome:
+            neg = {ast.In: "not in", ast.NotIn: "in", ast.Gt: "<=", ast.LtE: ">", ast.Lt: ">=", ast.GtE: "<", ast.Eq: "!=", ast.NotEq: "=="}.get(type(e.ops[0]))
+            return [f"{norm(e.left)} {neg} {norm(e.comparators[0])}"] if neg else []
+        return [norm(e)] if outcome else [f"not {norm(e)}"]
+
+    got: List[str] = []
+    ok_conj, n_true = True, 0
+    for p in enumerate_paths(iv.body):
+        if p.exit != "return":
+            ok_conj = False
+            continue
+        rv = p.exit_node.value
+        if rv is None or (isinstance(rv, ast.Constant) and not rv.value):
+            continue  # a path that answers "not valid"
+        atoms = [a for ev in p.events if ev[0] == "cond" for a in true_atoms(ev[1], ev[2])]
+        if not (isinstance(rv, ast.Constant) and rv.value is True):
+            atoms += true_atoms(rv, True)
+        n_true += 1
+        got = atoms
+        if not all(x in atoms for x in need):
+            ok_conj = False
+    ctx.ob("R-C19-4", "utils.is_valid_name/conjunction", ok_conj and n_true >= 1,
            f"the validity rule is the conjunction {need} (found {got})", node=iv, mod=repo.mod("utils"))
 
 
